@@ -65,6 +65,46 @@ def _one(job):
         shutil.rmtree(scratch, ignore_errors=True)
 
 
+def _neutral_one(job):
+    prop, name, patch = job
+    scratch = tempfile.mkdtemp(prefix="econf-neutral-")
+    try:
+        repo = os.path.join(scratch, "repo")
+        _copy_repo(repo)
+        r = subprocess.run(["patch", "-p1", "-s", "-d", repo, "-i", patch], capture_output=True, text=True)
+        if r.returncode != 0:
+            return (name, "skipped", "patch does not apply to the current tree")
+        cc = subprocess.run("clang -fsyntax-only -w -D_GNU_SOURCE -I%s/include %s/lib/*.c %s/util/*.c" % (repo, repo, repo), shell=True, capture_output=True, text=True)
+        if cc.returncode != 0:
+            return (name, "skipped", "does not compile on the current tree")
+        rc, lines = _run_check(prop, repo, scratch)
+        return (name, {0: "silent", 1: "alarm", 2: "not understood"}.get(rc, "error"), lines[0] if lines else "")
+    finally:
+        shutil.rmtree(scratch, ignore_errors=True)
+
+
+def neutral_for(prop, base_ok):
+    """the other direction: the rule set must stay silent on the behaviour-preserving refactorings of neutral/ (each applied
+    to a scratch copy of the CURRENT tree).  Reported in the evidence and on stdout; never changes the verdict about /repo."""
+    jobs = [(prop, os.path.basename(d), os.path.join(d, "patch.diff")) for d in sorted(glob.glob(os.path.join(VERIF, "neutral", "*")))
+            if os.path.exists(os.path.join(d, "patch.diff"))]
+    if not jobs:
+        return {}
+    with ThreadPoolExecutor(max_workers=16) as ex:
+        results = list(ex.map(_neutral_one, jobs))
+    applied = [r for r in results if r[1] != "skipped"]
+    silent = [r for r in applied if r[1] == "silent"]
+    print("selftest-neutral property=%s refactorings=%d applied=%d silent=%d alarms=%d not-understood=%d%s" % (
+        prop, len(jobs), len(applied), len(silent), len([r for r in applied if r[1] == "alarm"]),
+        len([r for r in applied if r[1] == "not understood"]), "" if base_ok else " (the unrefactored tree itself is not clean: alarms are expected)"))
+    if base_ok:
+        for r in applied:
+            if r[1] == "alarm":
+                print("SELFTEST-FALSE-ALARM property=%s refactoring=%s %s" % (prop, r[0], r[2][:160]))
+    return {"neutral_refactorings": len(jobs), "neutral_applied": len(applied), "neutral_silent": len(silent),
+            "neutral_not_silent": [(r[0], r[1]) for r in applied if r[1] != "silent"]}
+
+
 def run_for(prop, prog, ctx):
     jobs = []
     for rcp in _load_recipes():
@@ -93,7 +133,12 @@ def run_for(prop, prog, ctx):
         ctx.inconclusive("selftest", "self-test corpus", "", "none of the %d applicable mutants is detected: the rule set has gone blind" % len(applied))
     print("selftest property=%s mutants=%d applied=%d killed=%d survivors=%d inconclusive=%d skipped=%d" % (
         prop, len(jobs), len(applied), len(killed), len(survivors), len(inconcl), len(results) - len(applied)))
+    from . import report as _rep
+    base_ok = not any(o.outcome == _rep.FAIL and not _rep.known_match(prop, o, _rep.load_known()) for o in ctx.obs) and \
+        not any(o.outcome == _rep.INCONCLUSIVE for o in ctx.obs)
+    neutral = neutral_for(prop, base_ok)
     return {
+        **neutral,
         "mutants_total": len(jobs), "mutants_applied": len(applied), "mutants_killed": len(killed),
         "mutants_survived": [r[0] for r in survivors], "mutants_inconclusive": [r[0] for r in inconcl],
         "mutants_skipped": [(r[0], r[2]) for r in results if r[1] == "skipped"],
